@@ -3,7 +3,7 @@
    the extracted inductives; no Extract Constant. *)
 Require Extraction.
 From Coq Require Import ExtrOcamlBasic.
-From Adept Require Import Scalar GapList Tape Jacobian Buffers View Engines.
+From Adept Require Import Scalar GapList Tape Jacobian Buffers View Engines Interp.
 From AdeptGen Require Import Gen_Engines.
 Extraction "model.ml"
   GapList.init GapList.register1 GapList.registerN GapList.unregisterN GapList.new_recording GapList.step GapList.run
@@ -14,4 +14,5 @@ Extraction "model.ml"
   View.all_ix View.res View.addr View.apply_op View.apply_ops View.adm_op View.adm_ops View.den_ops View.parent View.slice_checked View.chk_slice View.lin_packed
   Gen_Engines.pack_offset Gen_Engines.index Gen_Engines.data_size Gen_Engines.stored Gen_Engines.transpose_engine Gen_Engines.transpose_swaps_LU
   Engines.dense Engines.read_row Engines.assign_row_targets Engines.diag_base Engines.diag_len Engines.sub_base
+  Interp.interp1 Interp.interp2d Interp.interp3d Interp.decode
   Jacobian.apply_writes Jacobian.omp_blocks Jacobian.J_fwd Jacobian.J_rev.
